@@ -65,6 +65,27 @@ impl Rng {
     }
 }
 
+impl Rng {
+    /// text like a server log: many distinct symbols with a skewed distribution and long-range
+    /// repetition (what a general-purpose compressor builds its largest code descriptions for)
+    pub fn log_text(&mut self, n: usize) -> Vec<u8> {
+        let levels = ["INFO", "WARN", "DEBUG", "ERROR", "TRACE"];
+        let paths = ["/api/v1/items", "/api/v2/users", "/static/css/site.css", "/healthz", "/login", "/Search?q=", "/répertoire/éàü"];
+        let mut v = Vec::with_capacity(n + 200);
+        let mut t = 1_790_000_000u64;
+        while v.len() < n {
+            t += self.below(3000);
+            let line = format!("2026-09-27T{:02}:{:02}:{:02}.{:03}Z host-{} app[{}]: level={} msg=\"{} served\" path={}{} status={} dur={}.{}ms bytes={} id={:016x}\n",
+                t / 3600 % 24, t / 60 % 60, t % 60, self.below(1000), self.below(40), 1000 + self.below(9000), levels[self.below(5) as usize],
+                ["request", "Response", "job #7", "cache-miss", "TLS handshake"][self.below(5) as usize], paths[self.below(7) as usize], self.below(100000),
+                [200, 200, 200, 404, 500, 302][self.below(6) as usize], self.below(500), self.below(10), self.below(1 << 20), self.next_u64());
+            v.extend_from_slice(line.as_bytes());
+        }
+        v.truncate(n);
+        v
+    }
+}
+
 pub fn fnv(data: &[u8]) -> u64 {
     let mut h: u64 = 0xcbf29ce484222325;
     for b in data {
